@@ -24,7 +24,7 @@ CLAIMS = {
             "text": "Coq theorems for EVERY repetition count r: soundness (invariant preserved by every single cell write), never looser than the superadditive bounds, monotone in r, lower bounds antitone along inclusion, upper-bound caps; all for arbitrary stale tables. Correspondence of compute_bounds_superadditive_monotone_approx_cached with the model for r in 0..10, 100, 1000 and oracles on the implementation.",
             "technique": "Coq proof (loop invariant over rounds and cells) + correspondence"},
     "C07": {"design_ref": "DESIGN.md 7/C07",
-            "text": "Coq theorem: K <= K' implies pointwise tighter intervals for both superadditive computers (all n, any tables holding the knowledge). Gap-function monotonicity (l1, l-inf, squared l2, binomially weighted gap) is proved in the Norms/Exploit development (C05 slice) and cited when merged; the SAM variant and the four registered gap functions are checked on every edge of the knowledge lattice (n<=3 quick, n<=4 thorough) on the implementation and against the model. Added: all gap functions are invariant under adding an additive game (ShiftProofs); same-object reveal chains incl. n = 9, 10 for the memoised computers in the correspondence.",
+            "text": "Coq theorem: K <= K' implies pointwise tighter intervals for both superadditive computers (all n, any tables holding the knowledge). Gap-function monotonicity (l1, l-inf, squared l2, binomially weighted gap) is proved in the Norms/Exploit development (C05 slice) and cited when merged; the SAM variant and the four registered gap functions are checked on every edge of the knowledge lattice (n<=3 quick, n<=4 thorough) on the implementation and against the model. Added: all gap functions are invariant under adding an additive game (ShiftProofs); same-object reveal chains incl. n = 9, 10 for the memoised computers in the correspondence. Added later: the four gap functions are comparable for all n (linf <= l1, exploitability <= l1, linf^2 <= l2^2 <= linf*l1, linf <= C*exploitability) and vanish together (GapCompare).",
             "technique": "Coq proof (induction on coalition size over two solutions) + lattice-edge correspondence + gap oracles"},
     "C08": {"design_ref": "DESIGN.md 7/C08",
             "text": "Coq theorems for EVERY computer of the registry (reference, cached, SAM approximation with any repetition count): the result is a function of the known rows only (stale unknown rows irrelevant, any game class), recomputation idempotent, reveal+un-reveal undone exactly, histories ending in the same knowledge confluent, computed states fresh. Correspondence on histories + implementation-side oracles (route independence, idempotence, undo, stale rows) for every registered computer. Added: revealing a coalition already pinned down by the bounds is a no-op for the superadditive computers and not for sam_apx (witness: 5-player budget game); histories through the public compute_bounds() with values of a second game, n = 9 histories, budget-game walks in the correspondence.",
@@ -33,7 +33,7 @@ CLAIMS = {
             "text": "Coq theorems over ALL histories of public operations (induction over the operation list): the table refines an abstract partial map coalition -> value (known iff set/revealed and not since unset/bulk-reset; known rows have lower = upper = value, Leibniz); bulk bound setters and every bound computer never alter a known row; unknown values are never returned (error / None / NaN); fresh object knows only the empty coalition; negation spec and involution. Correspondence: random histories incl. copy/negation aliasing, duplicates, malformed id lists; all getters compared after every operation; independent abstract-map oracle.",
             "technique": "Coq refinement proof to an abstract map + operation-history correspondence"},
     "C09": {"design_ref": "DESIGN.md 7/C09",
-            "text": "Coq theorems: invariant of the environment state machine by induction over ANY sequence of reset/step/unstep calls (known = initially known + chosen since the last reset, known rows carry the hidden values, table fresh, step counter), mask / observation / done / info / reset specifications, step+unstep restores the table exactly. Lock-step correspondence of ICG_Gym with the model after every call (all n=3 sequences, sampled n=4,5; every computer, gap function, budget) + an implementation-side oracle (knowledge, mask, observation, reward = -gap of fresh bounds <= 0, done predicate). Added: masks and observations are invariant under positive affine changes of the hidden game along every trace (all computers), rewards scale by c with equal done flags for the superadditive computers; sibling environments of one ModelInstance and hidden games scaled by 2^-30 in the correspondence.",
+            "text": "Coq theorems: invariant of the environment state machine by induction over ANY sequence of reset/step/unstep calls (known = initially known + chosen since the last reset, known rows carry the hidden values, table fresh, step counter), mask / observation / done / info / reset specifications, step+unstep restores the table exactly. Lock-step correspondence of ICG_Gym with the model after every call (all n=3 sequences, sampled n=4,5; every computer, gap function, budget) + an implementation-side oracle (knowledge, mask, observation, reward = -gap of fresh bounds <= 0, done predicate). Added: masks and observations are invariant under positive affine changes of the hidden game along every trace (all computers), rewards scale by c with equal done flags for the superadditive computers; sibling environments of one ModelInstance and hidden games scaled by 2^-30 in the correspondence. Added later: the all-intervals-degenerate disjunct of done holds iff the configured gap is zero, for each of the four gap functions (DoneGap).",
             "technique": "Coq invariant proof over operation traces + lock-step correspondence"},
     "C13": {"design_ref": "DESIGN.md 7/C13",
             "text": "Coq theorems: greedy / worst-greedy return a valid action of maximal / minimal tried reward with ties to the lowest index (also as a function of the reward vector, the form compared in lock-step); largest returns a valid action of maximal coalition size, lowest index; trying an action is a step which unstep undoes exactly. Lock-step correspondence for every registered solver at every reachable n=3 state and sampled n=4,5 states with asymmetric games; expected-greedy search modelled and proved (each choice minimises the mean gap over all one-coalition extensions, no repeats, rows = gaps of prefixes, curve non-increasing for class games, never below a lower bound of all same-size sets, optimal for one reveal) and compared with get_greedy_rewards on exact gaps, plus the exhaustive-optimum oracle with 1,2,4 processes. Added: expected-greedy is scale-free (argmin, chosen sequence, curve x c); per-step choice-rule oracle and rescaled games in the correspondence.",
